@@ -482,4 +482,218 @@ theorem exec_tails_never_started (ops : List XOp) (hok : ops.all opOk = true) :
     ∀ i a rest, (xrun {} ops).q i = a :: rest → tailOk rest = true :=
   inv1_tails _ (xrun_inv ops {} hok init_inv1)
 
+/-! ### highest priority first -/
+
+/-- a Running head sits in the highest-priority non-empty deque -/
+def HP (s : XS) : Prop := ∀ i a rest, s.q i = a :: rest → a.st = .running → ∀ j, j < nrm i → s.q j = []
+
+theorem ready_none (s : XS) (h : ready s = none) : ∀ i, s.q i = [] := by
+  unfold ready at h
+  by_cases h0 : s.q0 = [] <;> by_cases h1 : s.q1 = [] <;> by_cases h2 : s.q2 = [] <;> simp [h0, h1, h2] at h
+  intro i; rcases i with _ | _ | i <;> simp [XS.q, h0, h1, h2]
+
+theorem preempt_q_empty (s0 : XS) (r j : Nat) (h : s0.q j = []) : (preempt s0 r).q j = [] := by
+  unfold preempt
+  cases hc : s0.curr with
+  | none => exact h
+  | some c =>
+    simp only []
+    split
+    · rw [q_setQ]
+      split
+      · rename_i e
+        have : s0.q c = [] := by rw [← q_nrm s0 c, e, q_nrm]; exact h
+        rw [this]; rfl
+      · exact h
+    · exact h
+
+theorem schedHead_q (s1 : XS) (r : Nat) (hr2 : r ≤ 2) (a : XAct) (rest : List XAct) (s' : XS) (hs : schedHead s1 r a rest = some s') :
+    ∃ X, (∀ j, s'.q j = if r = nrm j then X else s1.q j) ∧ (X = rest ∨ ∃ a', X = a' :: rest) := by
+  have hq : ∀ (X : List XAct) j, (s1.setQ r X).q j = if r = nrm j then X else s1.q j := by
+    intro X j; have := q_setQ s1 r j X; rw [nrm_le r hr2] at this; exact this
+  unfold schedHead at hs
+  by_cases hi : (a.st == St.idle) = true
+  · simp only [hi, ↓reduceIte] at hs
+    split at hs
+    · simp only [Option.some.injEq] at hs; subst hs
+      exact ⟨_, fun j => by rw [emit_q]; exact hq _ j, Or.inr ⟨_, rfl⟩⟩
+    · simp only [Option.some.injEq] at hs; subst hs
+      exact ⟨_, fun j => by rw [emit_q]; exact hq _ j, Or.inl rfl⟩
+  · simp only [hi, Bool.false_eq_true, ↓reduceIte] at hs
+    split at hs
+    · simp only [Option.some.injEq] at hs; subst hs
+      exact ⟨_, fun j => hq _ j, Or.inr ⟨_, rfl⟩⟩
+    · split at hs
+      · simp only [Option.some.injEq] at hs; subst hs
+        exact ⟨_, fun j => by rw [emit_q]; exact hq _ j, Or.inl rfl⟩
+      · cases hs
+
+theorem sched_hp : ∀ (fuel : Nat) (s : XS), Inv1 s → (fuel = 0 → HP s) → HP (sched fuel s)
+  | 0, s, _, h => h rfl
+  | fuel + 1, s, h, _ => by
+    rw [sched]
+    have h0 := dropDangling_inv s h
+    cases hr : ready (dropDangling s) with
+    | none =>
+      intro i a rest e
+      rw [emit_q, ready_none _ hr i] at e; cases e
+    | some r =>
+      obtain ⟨hr2, hne, hlow⟩ := ready_spec _ r hr
+      have h1 := preempt_inv _ r h0 hlow
+      have hlow1 : ∀ j, j < r → (preempt (dropDangling s) r).q j = [] := fun j hj => preempt_q_empty _ r j (hlow j hj)
+      have hp1 : HP (preempt (dropDangling s) r) := by
+        intro i b bs e hrun j hj
+        have : nrm i = r := by
+          by_cases x : nrm i = r
+          · exact x
+          · exact absurd hrun (h1.2 i x b bs e)
+        exact hlow1 j (by omega)
+      simp only []
+      cases hq : (preempt (dropDangling s) r).q r with
+      | nil => exact hp1
+      | cons a rest =>
+        simp only []
+        cases hs : schedHead (preempt (dropDangling s) r) r a rest with
+        | none => exact hp1
+        | some s' =>
+          have hi' := schedHead_inv _ r hr2 a rest h1.1 h1.2 hq s' hs
+          refine sched_hp fuel s' hi' (fun _ => ?_)
+          obtain ⟨X, hX, _⟩ := schedHead_q _ r hr2 a rest s' hs
+          intro i b bs e hrun j hj
+          rw [hX i] at e
+          by_cases x : r = nrm i
+          · rw [hX j]
+            have hjr : j < r := by omega
+            have : r ≠ nrm j := by rw [nrm_le j (by omega)]; omega
+            simp only [this, ↓reduceIte]
+            exact hlow1 j hjr
+          · simp only [x, ↓reduceIte] at e
+            exact absurd hrun (h1.2 i (fun y => x y.symm) b bs e)
+
+theorem schedule_hp (s : XS) (h : Inv1 s) : HP (schedule s) :=
+  sched_hp _ s h (fun e => by simp [schedFuel] at e)
+
+theorem hp_of_q (s s' : XS) (h : HP s) (hemp : ∀ j, s.q j = [] → s'.q j = [])
+    (hrun : ∀ i b bs, s'.q i = b :: bs → b.st = .running → ∃ a rest, s.q i = a :: rest ∧ a.st = .running) : HP s' := by
+  intro i b bs e hr j hj
+  obtain ⟨a, rest, e0, hr0⟩ := hrun i b bs e hr
+  exact hemp j (h i a rest e0 hr0 j hj)
+
+theorem q_map (s s' : XS) (f : XAct → XAct) (e0 : s'.q0 = s.q0.map f) (e1 : s'.q1 = s.q1.map f) (e2 : s'.q2 = s.q2.map f) (j : Nat) :
+    s'.q j = (s.q j).map f := by
+  rcases j with _ | _ | j <;> simp [XS.q, e0, e1, e2]
+
+theorem xstep_hp (s : XS) (op : XOp) (hp : opOk op = true) (h : Inv1 s) (hh : HP s) : HP (xstep s op).1 := by
+  have h4 := (inv1_iff s).1 h
+  obtain ⟨h0, h1, h2, hc⟩ := h4
+  cases op with
+  | append k prio =>
+    simp only [xstep]
+    apply schedule_hp
+    have ha : (({ id := s.idc + 1, kind := k, st := if k == .dead then .stoped else .idle } : XAct).st = .idle ∨
+        (({ id := s.idc + 1, kind := k, st := if k == .dead then .stoped else .idle } : XAct).kind = .dead ∧
+         ({ id := s.idc + 1, kind := k, st := if k == .dead then .stoped else .idle } : XAct).st = .stoped)) := by
+      by_cases hk : k = .dead
+      · right; simp [hk]
+      · left; simp [hk]
+    rw [inv1_iff]
+    have hp' : prio ≤ 2 := by simpa [opOk] using hp
+    rcases prio with _ | _ | _ | p
+    · exact ⟨headI_append _ _ _ _ h0 ha, h1, h2, hc⟩
+    · exact ⟨h0, headI_append _ _ _ _ h1 ha, h2, hc⟩
+    · exact ⟨h0, h1, headI_append _ _ _ _ h2 ha, hc⟩
+    · omega
+  | cancel id =>
+    simp only [xstep]
+    split
+    · exact schedule_hp _ ((inv1_iff _).2 ⟨headI_filter _ _ _ _ h0, h1, h2, hc⟩)
+    · split
+      · exact schedule_hp _ ((inv1_iff _).2 ⟨h0, headI_filter _ _ _ _ h1, h2, hc⟩)
+      · split
+        · exact schedule_hp _ ((inv1_iff _).2 ⟨h0, h1, headI_filter _ _ _ _ h2, hc⟩)
+        · exact hh
+  | cancelCurrent =>
+    simp only [xstep]
+    cases hcur : s.curr with
+    | none => simpa [hcur] using hh
+    | some c =>
+      simp only []
+      cases hq : s.q c with
+      | nil => simpa using hh
+      | cons a rest =>
+        simp only []
+        apply schedule_hp
+        have hcc : (s.setQ c rest).curr = s.curr := setQ_curr s c rest
+        rw [inv1_iff, hcc]
+        rcases c with _ | _ | c
+        · have e : s.q0 = a :: rest := hq
+          rw [e] at h0
+          exact ⟨headI_tail _ _ a rest h0 _, h1, h2, hc⟩
+        · have e : s.q1 = a :: rest := hq
+          rw [e] at h1
+          exact ⟨h0, headI_tail _ _ a rest h1 _, h2, hc⟩
+        · have e : s.q2 = a :: rest := hq
+          rw [e] at h2
+          exact ⟨h0, h1, headI_tail _ _ a rest h2 _, hc⟩
+  | cancelAll =>
+    simp only [xstep]
+    -- every head is stopped: no head is Running
+    intro i b bs e hr
+    exfalso
+    have e' : mapFront actStop (s.q i) = b :: bs := by rcases i with _ | _ | i <;> exact e
+    cases hl : s.q i with
+    | nil => rw [hl] at e'; cases e'
+    | cons a rest =>
+      rw [hl] at e'
+      simp only [mapFront, List.cons.injEq] at e'
+      rw [← e'.1] at hr
+      unfold actStop at hr; split at hr <;> simp_all
+  | emit id succ =>
+    simp only [xstep]
+    split
+    · refine hp_of_q s _ hh (fun j hj => by rw [q_map s _ _ rfl rfl rfl j, hj]; rfl) ?_
+      intro i b bs e hr
+      rw [q_map s _ _ rfl rfl rfl i] at e
+      cases hl : s.q i with
+      | nil => rw [hl] at e; cases e
+      | cons a rest =>
+        rw [hl] at e
+        simp only [List.map_cons, List.cons.injEq] at e
+        refine ⟨a, rest, rfl, ?_⟩
+        rw [← e.1] at hr
+        split at hr <;> simp_all
+    · exact hh
+  | pass =>
+    simp only [xstep]
+    generalize (((s.q0 ++ s.q1 ++ s.q2).filterMap (fun a => a.fin)).mergeSort (· ≤ ·)) = ids
+    induction ids generalizing s with
+    | nil => exact hh
+    | cons rid ids ih =>
+      simp only [List.foldl_cons]
+      split
+      · have hf : ∀ (a : XAct), a.st ≠ .running → ((if a.fin == some rid then { a with fin := none } else a).st = a.st ∧ (if a.fin == some rid then { a with fin := none } else a).kind = a.kind) := by
+          intro a _; split <;> simp
+        have hr : ∀ (a : XAct), (if a.fin == some rid then { a with fin := none } else a).st = .running → a.st = .running := by
+          intro a; split <;> simp
+        have hpre : Inv1 { s with q0 := s.q0.map (fun a => if a.fin == some rid then { a with fin := none } else a),
+                                  q1 := s.q1.map (fun a => if a.fin == some rid then { a with fin := none } else a),
+                                  q2 := s.q2.map (fun a => if a.fin == some rid then { a with fin := none } else a) } :=
+          (inv1_iff _).2 ⟨headI_map _ _ _ _ h0 hf hr, headI_map _ _ _ _ h1 hf hr, headI_map _ _ _ _ h2 hf hr, hc⟩
+        have h' := schedule_inv _ hpre
+        have h4' := (inv1_iff _).1 h'
+        exact ih _ h' (schedule_hp _ hpre) h4'.1 h4'.2.1 h4'.2.2.1 h4'.2.2.2
+      · exact ih s h hh h0 h1 h2 hc
+
+theorem xrun_hp : ∀ (ops : List XOp) (s : XS), ops.all opOk = true → Inv1 s → HP s → HP (xrun s ops)
+  | [], s, _, _, h => h
+  | op :: ops, s, hok, h, hh => by
+    simp only [List.all_cons, Bool.and_eq_true] at hok
+    exact xrun_hp ops _ hok.2 (xstep_inv s op hok.1 h) (xstep_hp s op hok.1 h hh)
+
+/-- **highest priority first**: after any sequence of executor operations, a Running action is the head
+of the highest-priority non-empty deque (every deque of higher priority is empty) -/
+theorem exec_highest_first (ops : List XOp) (hok : ops.all opOk = true) :
+    ∀ i a rest, (xrun {} ops).q i = a :: rest → a.st = .running → ∀ j, j < nrm i → (xrun {} ops).q j = [] :=
+  xrun_hp ops {} hok init_inv1 (fun i a rest e => by rcases i with _ | _ | i <;> cases e)
+
 end Tbox.C17.Exec
